@@ -226,8 +226,8 @@ func ruleClientCache(c *Ctx) {
 			}
 		}
 	}
-	if len(stores) < 2 {
-		c.R.Undecided("R-ONCE", cf.Name, "cache stores", fmt.Sprintf("only %d stores to Client.client found", len(stores)))
+	if len(stores) < 1 {
+		c.R.Undecided("R-ONCE", cf.Name, "cache stores", "no store to Client.client found")
 		return
 	}
 	for i, st := range stores {
@@ -240,6 +240,37 @@ func ruleClientCache(c *Ctx) {
 			c.R.Hold("R-ONCE", p.Pos(st.Ast), cf.Name, construct, "reachable only when Client.client == nil was observed (under the client lock, see R-GUARD)", true)
 		} else {
 			c.R.Violate("R-ONCE", p.Pos(st.Ast), cf.Name, construct, "a protocol client can be created although one is already cached: successive Client() calls return different clients", nil)
+		}
+	}
+	// test and store form one critical section
+	var testN *Node
+	for _, n := range cg.Nodes {
+		for _, e := range n.Succs {
+			if at, ok := edgeAtom(cinfo, e); ok && at.Kind == "nil" && SelField(cinfo, at.X) == clientF {
+				testN = n
+			}
+		}
+	}
+	if testN != nil {
+		atomicOK := true
+		for _, st := range stores {
+			seen := cg.ReachAfter(testN, func(x *Node) bool { return x == st }, nil)
+			for x := range seen {
+				if x.Ast == nil || !reachable(cg, x, st) {
+					continue
+				}
+				if len(p.MustHeldAt(cf, x)) == 0 {
+					atomicOK = false
+				}
+			}
+			if len(p.MustHeldAt(cf, st)) == 0 || len(p.MustHeldAt(cf, testN)) == 0 {
+				atomicOK = false
+			}
+		}
+		if atomicOK {
+			c.R.Hold("R-ONCE", p.Pos(testN.Ast), cf.Name, "cache test and store are one critical section", "the client lock is held continuously from the nil test to the store", true)
+		} else {
+			c.R.Violate("R-ONCE", p.Pos(testN.Ast), cf.Name, "cache test and store are one critical section", "the lock is released between testing Client.client and storing it: concurrent Client() calls each create, and return, their own protocol client", nil)
 		}
 	}
 	// the cached value is returned on the hit edge
